@@ -688,7 +688,6 @@ func TestVerif_C12(t *testing.T) {
 	r.Finish()
 }
 
-
 // vC12WaitOrDeadlock waits for the trial's goroutines. It returns false only when, well after a
 // generous delay, the goroutines that have not finished are all parked in a mutex inside the nonce's
 // Response (observed twice, five seconds apart, with the same set still parked): a deadlock, not slowness.
